@@ -7,10 +7,67 @@ open Synap Synap.NDArray Synap.Np Synap.Kernels Proofs.Core Proofs.Calc
 
 /-! ### softmax family -/
 
+/-- the 0-d case (`dim` 0 / −1 on a 0-d operand): the forward is the constant `1`, the backward returns
+    `s·(g − g·s) = 0` -/
+theorem softmax_vjp_zero (a s : NDArray ℝ) (axis : Int) (h0 : zeroDimAxis a.shape axis)
+    (h : softmaxForward a axis = some s) :
+    IsVJPAt (fun x => softmaxForward x axis) a a.shape (fun g => softmaxBackward g s axis) := by
+  have hs : s = ofFn [] (fun _ => (1 : ℝ)) := by
+    rw [sm_softmaxForward_zero a axis h0] at h
+    exact (Option.some.inj h).symm
+  have hsh : a.shape = [] := h0.1
+  intro v g hv hvs hg hgs
+  have hF : ∀ t : ℝ, softmaxForward (line a v t) axis = some (ofFn [] (fun _ => (1 : ℝ))) :=
+    fun t => sm_softmaxForward_zero (line a v t) axis h0
+  refine ⟨fun t => ⟨_, hF t, ofFn_wf _ _, hsh.symm⟩, ?_⟩
+  have h0s : zeroDimAxis s.shape axis := by rw [hs]; exact ⟨rfl, h0.2⟩
+  refine ⟨_, sm_softmaxBackward_zero g s axis h0s, ofFn_wf _ _, hsh.symm, ?_⟩
+  have hfun : (fun t : ℝ => ((softmaxForward (line a v t) axis).map (fun y => dot y g)).getD 0)
+      = fun _ => dot (ofFn [] (fun _ => (1 : ℝ))) g := by
+    funext t
+    rw [hF t]
+    rfl
+  rw [hfun]
+  have hz : dot v (ofFn [] (fun _ => s.get [] * (g.get [] - g.get [] * s.get []))) = 0 := by
+    rw [Proofs.ConvTools.dot_ofFn_right v [] _ (hvs.trans hsh)]
+    have h1 : s.get [] = 1 := by rw [hs]; exact get_ofFn [] _ [] trivial
+    simp [allIdx, h1]
+  rw [hz]
+  exact hasDerivAt_const 0 _
+
+/-- the 0-d case: the forward is the constant `0`, the backward returns `g − exp(0)·g = 0` -/
+theorem log_softmax_vjp_zero (a ls : NDArray ℝ) (axis : Int) (h0 : zeroDimAxis a.shape axis)
+    (h : logSoftmaxForward a axis = some ls) :
+    IsVJPAt (fun x => logSoftmaxForward x axis) a a.shape (fun g => logSoftmaxBackward g ls axis) := by
+  have hs : ls = ofFn [] (fun _ => (0 : ℝ)) := by
+    rw [sm_logSoftmaxForward_zero a axis h0] at h
+    exact (Option.some.inj h).symm
+  have hsh : a.shape = [] := h0.1
+  intro v g hv hvs hg hgs
+  have hF : ∀ t : ℝ, logSoftmaxForward (line a v t) axis = some (ofFn [] (fun _ => (0 : ℝ))) :=
+    fun t => sm_logSoftmaxForward_zero (line a v t) axis h0
+  refine ⟨fun t => ⟨_, hF t, ofFn_wf _ _, hsh.symm⟩, ?_⟩
+  have h0s : zeroDimAxis ls.shape axis := by rw [hs]; exact ⟨rfl, h0.2⟩
+  refine ⟨_, sm_logSoftmaxBackward_zero g ls axis h0s, ofFn_wf _ _, hsh.symm, ?_⟩
+  have hfun : (fun t : ℝ => ((logSoftmaxForward (line a v t) axis).map (fun y => dot y g)).getD 0)
+      = fun _ => dot (ofFn [] (fun _ => (0 : ℝ))) g := by
+    funext t
+    rw [hF t]
+    rfl
+  rw [hfun]
+  have hz : dot v (ofFn [] (fun _ => g.get [] - Real.exp (ls.get []) * g.get [])) = 0 := by
+    rw [Proofs.ConvTools.dot_ofFn_right v [] _ (hvs.trans hsh)]
+    have h1 : ls.get [] = 0 := by rw [hs]; exact get_ofFn [] _ [] trivial
+    simp [allIdx, h1]
+  rw [hz]
+  exact hasDerivAt_const 0 _
+
 /-- softmax along any axis: backward (which reads the saved output `s`) is the VJP at `a` -/
 theorem softmax_vjp (a s : NDArray ℝ) (axis : Int) (ha : a.WF) (h : softmaxForward a axis = some s) :
     IsVJPAt (fun x => softmaxForward x axis) a a.shape (fun g => softmaxBackward g s axis) := by
-  obtain ⟨ax, hax, hn⟩ := sm_softmaxForward_some a s axis h
+  by_cases h0 : zeroDimAxis a.shape axis
+  · exact softmax_vjp_zero a s axis h0 h
+  obtain ⟨ax, hax, hn⟩ := sm_softmaxForward_some a s axis h0 h
   have haxlt : ax < a.shape.length := Proofs.Adjoint.normAxis_lt hax
   have hs : s = ofFn a.shape (sm_sig a.get (a.shape.getD ax 0) ax) := by
     rw [sm_softmaxForward_eq a axis ax hax hn] at h
@@ -23,7 +80,7 @@ theorem softmax_vjp (a s : NDArray ℝ) (axis : Int) (ha : a.WF) (h : softmaxFor
   have hB : softmaxBackward g s axis = some (ofFn a.shape (fun i => s.get i *
       (g.get i - fibreSum (fun j => g.get j * s.get j) a.shape ax i))) := by
     have hss : s.shape = a.shape := by rw [hs]; rfl
-    simp only [softmaxBackward, hss, hax]
+    simp only [softmaxBackward, hss, if_neg h0, hax]
     rfl
   refine ⟨_, hB, ofFn_wf _ _, rfl, ?_⟩
   have hfun : (fun t : ℝ => ((softmaxForward (line a v t) axis).map (fun y => dot y g)).getD 0)
@@ -61,7 +118,9 @@ theorem softmax_vjp (a s : NDArray ℝ) (axis : Int) (ha : a.WF) (h : softmaxFor
 /-- log_softmax along any axis: backward (which reads the saved output `ls`) is the VJP at `a` -/
 theorem log_softmax_vjp (a ls : NDArray ℝ) (axis : Int) (ha : a.WF) (h : logSoftmaxForward a axis = some ls) :
     IsVJPAt (fun x => logSoftmaxForward x axis) a a.shape (fun g => logSoftmaxBackward g ls axis) := by
-  obtain ⟨ax, hax, hn⟩ := sm_logSoftmaxForward_some a ls axis h
+  by_cases h0 : zeroDimAxis a.shape axis
+  · exact log_softmax_vjp_zero a ls axis h0 h
+  obtain ⟨ax, hax, hn⟩ := sm_logSoftmaxForward_some a ls axis h0 h
   have haxlt : ax < a.shape.length := Proofs.Adjoint.normAxis_lt hax
   have hs : ls = ofFn a.shape (sm_ls a.get (a.shape.getD ax 0) ax) := by
     rw [sm_logSoftmaxForward_eq a axis ax hax hn] at h
@@ -74,7 +133,7 @@ theorem log_softmax_vjp (a ls : NDArray ℝ) (axis : Int) (ha : a.WF) (h : logSo
   have hB : logSoftmaxBackward g ls axis = some (ofFn a.shape (fun i => g.get i -
       Transc.exp (ls.get i) * fibreSum g.get a.shape ax i)) := by
     have hss : ls.shape = a.shape := by rw [hs]; rfl
-    simp only [logSoftmaxBackward, hss, hax]
+    simp only [logSoftmaxBackward, hss, if_neg h0, hax]
     rfl
   refine ⟨_, hB, ofFn_wf _ _, rfl, ?_⟩
   have hfun : (fun t : ℝ => ((logSoftmaxForward (line a v t) axis).map (fun y => dot y g)).getD 0)
@@ -116,7 +175,8 @@ theorem cross_entropy_vjp (x y : NDArray ℝ) (labels : List Nat) (hx : x.WF) (h
   have h' : (logSoftmaxForward x 1).bind (fun ls => nllForward ls labels) = some y := by
     simpa [crossEntropyForward, hlen] using h
   obtain ⟨ls, hls, hnll⟩ := Option.bind_eq_some_iff.1 h'
-  obtain ⟨ax, hax, hn⟩ := sm_logSoftmaxForward_some x ls 1 hls
+  have hnz : ¬ zeroDimAxis x.shape 1 := sm_not_zeroDim_of_length (by omega)
+  obtain ⟨ax, hax, hn⟩ := sm_logSoftmaxForward_some x ls 1 hnz hls
   have hax1 : ax = 1 := by
     rw [hlen] at hax
     simpa [normAxis] using hax.symm
@@ -179,7 +239,7 @@ theorem cross_entropy_vjp (x y : NDArray ℝ) (labels : List Nat) (hx : x.WF) (h
   refine hderiv.congr_deriv ?_
   have hbdef : b = ofFn x.shape (fun i => (nllBackward g ls labels).get i -
       Transc.exp (ls.get i) * fibreSum (nllBackward g ls labels).get x.shape 1 i) := by
-    simp only [logSoftmaxBackward, hlss, hax] at hb
+    simp only [logSoftmaxBackward, hlss, if_neg hnz, hax] at hb
     exact (Option.some.inj hb).symm
   rw [hbdef, Proofs.ConvTools.dot_ofFn_right v x.shape _ hvs, Proofs.ConvTools.dot_ofFn_right v x.shape _ hvs]
   congr 1
